@@ -391,7 +391,7 @@ def run(ctx):
     ]
 
 
-def flush_domain(ctx, m, dom_batch, stats):
+def flush_domain(ctx, m, dom_batch, stats, key="generic-roundtrip", what="row_dom"):
     """The domain of the Coq theorem C07_row_roundtrip (row_dom, evaluated by the extracted model)
     against the domain the oracle is written from (rowgen.in_domain, from the property text):
     the theorem must cover every case the oracle counts as in-domain; and wherever the theorem
@@ -399,18 +399,17 @@ def flush_domain(ctx, m, dom_batch, stats):
     outs = ask_all(m, [d[4] for d in dom_batch])
     for (case, pydom, rt_ok, rep, _), o in zip(dom_batch, outs):
         if o not in ("0", "1"):
-            ctx.disagree("row_dom: model could not decode the request", case, o, pydom)
+            ctx.disagree(f"{what}: model could not decode the request", case, o, pydom)
             continue
         thm = o == "1"
         stats["theorem_domain"] = stats.get("theorem_domain", 0) + thm
         if pydom and not thm:
-            ctx.disagree("the theorem's domain (row_dom) does not cover a case the oracle counts as representable+admissible",
-                         case, "row_dom=false", "in_domain=true")
+            ctx.disagree(f"the theorem's domain ({what}) does not cover a case the oracle counts as representable+admissible",
+                         case, f"{what}=false", "in_domain=true")
         if thm and not pydom:
             stats["theorem_domain_beyond_oracle"] = stats.get("theorem_domain_beyond_oracle", 0) + 1
         if thm and not rt_ok:
-            ctx.v.failing_input("generic-roundtrip",
-                                f"inside the proved domain (row_dom) the implementation does not round-trip: {case!r}", rep)
+            ctx.v.failing_input(key, f"inside the proved domain ({what}) the implementation does not round-trip: {case!r}"[:3000], rep)
 
 
 # the instances of Row/RefuteFacts.v: (key, type, value, targets, cells the theorem states, instance read back or None)
@@ -509,6 +508,7 @@ def run_flow(ctx, stats, nontrivial, samples, RowParser, CellParser, RowDataShee
     n_files = (400 if thorough else 40) * ctx.scale
     fstats = {"rows": 0, "in_domain": 0, "by_type": {}, "strip_uuids": 0, "file_csv": 0, "file_xlsx": 0, "multi_row_sheets": 0}
     batch = []
+    flow_dom_batch = []
     good_rows = []
     for i in range(n_flow):
         good = rng.random() < 0.85
@@ -537,6 +537,10 @@ def run_flow(ctx, stats, nontrivial, samples, RowParser, CellParser, RowDataShee
                 nontrivial.add(repr(un[1]))
                 if not strip:
                     good_rows.append(val)
+        if m and not strip:
+            rt_ok = un[0] == "ok" and back[0] == "ok" and _deep_eq(back[1], val)
+            flow_dom_batch.append((dict(flow_row=val), dom, rt_ok, dict(fn="flow", value=val, strip=False),
+                                   f"(107 7 {rowlib.e_value(desc, val)})"))
         if m:
             reqs = [f"(107 5 {rowlib.e_value(desc, val)} {1 if strip else 0})"]
             bad = badr = None
@@ -555,6 +559,8 @@ def run_flow(ctx, stats, nontrivial, samples, RowParser, CellParser, RowDataShee
             samples.append(dict(flow_row_cells=un[1]))
     if m and batch:
         flush_generic(ctx, m, batch, stats)
+    if m and flow_dom_batch:
+        flush_domain(ctx, m, flow_dom_batch, fstats, key="flow-roundtrip", what="flow_dom")
 
     # ---- through files: RowDataSheet.export -> reader -> SheetParser -> parse_row
     scratch = tempfile.mkdtemp(prefix="rpftc07")
